@@ -160,8 +160,8 @@ def run(ch: Checker) -> None:
     # ---------------- C07.2 get_events
     ge = prog.own_method('BaseTcpServerHandler', 'get_events')
     gg = cfg_of(ge, prog)
-    bad_r = bad_w = None
-    n_r = n_w = 0
+    bad_r = bad_w = bad_rr = None
+    n_r = n_w = n_rr = 0
     for p in fpaths(gg):
         ch.paths += 1
         if p.exit_kind != 'return':
@@ -181,7 +181,15 @@ def run(ch: Checker) -> None:
                     wrote_w = True
         if facts_all.get(HASBUF) is True and not wrote_w:
             bad_w = ('a path with pending output does not register write interest: the buffer is never flushed', p.describe())
+        # the other direction: while no final flush is pending the client IS polled for reading
+        if facts_all.get('self.must_flush_before_shutdown is False') is True:
+            n_rr += 1
+            if not any(isinstance(st, (ast.Assign, ast.AugAssign)) and 'EVENT_READ' in norm(st.value) for idx, st in p.stmts()):
+                bad_rr = ('on a path where no final flush is pending the client descriptor is not registered for reading: nothing the client sends (the next request, the rest of a body, '
+                          'its FIN) is ever noticed', p.describe())
     ch.check(bad_r is None and n_r >= 1, 'C07.2', ge, 'EVENT_READ', 'read interest only while no final flush is pending', bad_r[0] if bad_r else 'no EVENT_READ registration', witness=bad_r[1] if bad_r else None)
+    ch.check(bad_rr is None and n_rr >= 1, 'C07.2', ge, 'EVENT_READ whenever not draining', 'client polled for reading on all %d path(s) without a pending final flush' % n_rr,
+             bad_rr[0] if bad_rr else 'no path without a pending final flush', witness=bad_rr[1] if bad_rr else None)
     ch.check(bad_w is None and n_w >= 1, 'C07.2', ge, 'EVENT_WRITE', 'write interest whenever output is pending', bad_w[0] if bad_w else 'no EVENT_WRITE registration', witness=bad_w[1] if bad_w else None)
 
     # ---------------- C07.2b handle_writables (base)
@@ -260,6 +268,31 @@ def run(ch: Checker) -> None:
         if isinstance(w, ast.While) and norm(w.test) == HASBUF and any(_calls(s, 'self.work.flush') for s in w.body):
             okf = True
     ch.check(okf, 'C07.3', fl, 'while has_buffer: flush', '_flush loops until the buffer is empty', '_flush no longer loops `while self.work.has_buffer()` around self.work.flush()')
+    # the drain loop can only make progress if the client socket is registered for write readiness before it starts,
+    # and every iteration in which select() reported readiness writes
+    gfl = cfg_of(fl, prog, exc_edges=False)
+    badf = None
+    nf = 0
+    for p in fpaths(gfl):
+        ch.paths += 1
+        fd = allfacts(p)
+        if not any(gfl.nodes[nid].kind == 'test' and lab is True and norm(gfl.nodes[nid].ast) == HASBUF for nid, lab in p.steps):   # type: ignore[arg-type]
+            continue
+        nf += 1
+        sym = Sym(p)
+        first_test = min([i for i, (nid, lab) in enumerate(p.steps) if gfl.nodes[nid].kind == 'test' and norm(gfl.nodes[nid].ast) == HASBUF] or [0])   # type: ignore[arg-type]
+        reg = any(isinstance(c, ast.Call) and attr_chain(c.func) == 'self.selector.register' and len(c.args) >= 2 and 'EVENT_WRITE' in norm(sym.value(c.args[1], i))
+                  and norm(sym.value(c.args[0], i)) in ('self.work.connection', 'self.work.connection.fileno()')
+                  for i, st in p.stmts() if i < first_test for c in walk_no_nested(st))
+        if not reg:
+            badf = ('the drain loop of _flush is entered without the client socket having been registered for EVENT_WRITE: select() then never reports it ready and pending output is '
+                    'never written before the socket is closed', p.describe(16))
+        ready = any(v is False and k.replace(' ', '') in ('len(self.selector.select(timeout=DEFAULT_SELECTOR_SELECT_TIMEOUT))==0',) for k, v in fd.items()) or \
+            any(v is False and k.replace(' ', '').startswith('len(') and k.replace(' ', '').endswith('==0') for k, v in fd.items())
+        if ready and not any(_calls(st, 'self.work.flush') for i, st in p.stmts()):
+            badf = ('select() reported the client writable but this iteration of the drain loop does not call self.work.flush()', p.describe(16))
+    ch.check(badf is None and nf > 0, 'C07.3', fl, 'drain loop can progress', 'registered for EVENT_WRITE before the loop; flush on every ready iteration (%d path(s))' % nf,
+             badf[0] if badf else 'no path enters the drain loop', witness=badf[1] if badf else None)
 
     # ---------------- C07.4
     idle_predicate_check(ch, 'C07.4')
